@@ -413,7 +413,9 @@ class Visitor:
 
         property_function = self.get_base_property(decorators, function)
 
-        if overload:
+        # Overloads are only collected in modules and classes: functions (`__init__` bodies are visited too)
+        # have no `overloads` mapping.
+        if overload and self.current.kind in {Kind.MODULE, Kind.CLASS}:
             self.current.overloads[function.name].append(function)
         elif property_function:
             base_property: Attribute = self.current.members[node.name]  # type: ignore[assignment]
